@@ -265,7 +265,7 @@ func (c16) Gen(rng *rand.Rand, tier string, idx int) Case {
 			// rows also carry top-level fields named like the aliases (`meta`, `m`, `k`, `s`)
 			[]string{"salias", strconv.Itoa(rng.Intn(2))}, []string{"talias", strconv.Itoa(rng.Intn(3))},
 			[]string{"envelope", strconv.Itoa(rng.Intn(3) / 2)},
-			[]string{"where", strconv.Itoa(rng.Intn(3) / 2)}, []string{"swap", strconv.Itoa(rng.Intn(4) / 3)},
+			[]string{"where", strconv.Itoa(rng.Intn(3) / 2)}, []string{"swap", strconv.Itoa((rng.Intn(4) / 3) * (1 + rng.Intn(7)))}, // bit i: pair i is written table side first
 			[]string{"nestkey", strconv.Itoa(rng.Intn(4) / 3)},
 			// pre 1: an earlier LEFT JOIN with MORE ON pairs on an empty second table precedes the
 			// modelled JOIN (identity on the observed columns; exercises per-JOIN key construction)
@@ -392,7 +392,7 @@ func c16Tbl(c Case, arity int) [][][]string {
 
 func c16JoinSQL(c Case, arity int, sel, tail string) string {
 	salias, talias := c04CfgVal(c, "salias", "0") == "1", c04CfgVal(c, "talias", "0") == "1"
-	swap := c04CfgVal(c, "swap", "0") == "1"
+	swap, _ := strconv.Atoi(c04CfgVal(c, "swap", "0"))
 	from, sp := "stream", ""
 	if salias {
 		from, sp = "stream s", "s."
@@ -413,7 +413,7 @@ func c16JoinSQL(c Case, arity int, sel, tail string) string {
 		if c04CfgVal(c, "nestkey", "0") == "1" { // the stream-side key columns live in a nested object: kk.k0, kk.k1, …
 			l = fmt.Sprintf("%skk.k%d", sp, i)
 		}
-		if swap {
+		if swap>>uint(i)&1 == 1 { // each equality has its own orientation
 			l, r = r, l
 		}
 		on = append(on, l+" = "+r)
